@@ -21,6 +21,7 @@ import (
 	"strings"
 	"sync"
 	"sync/atomic"
+	"syscall"
 	"testing"
 	"time"
 
@@ -806,6 +807,179 @@ func vfC08LateCandidate(e *vfEnv, r *vfResult, idx int) {
 	r.distinct(fmt.Sprintf("c08late/%s/parked=%v/accepted=%v", kind, parked, lateAdded))
 }
 
+// vfC08CancelledCycle: Close after Restart has cancelled a gathering cycle that cannot wind down yet (its TURN
+// allocation is held by the harness).  Close has to wait for that cycle like for any current one: while the harness
+// holds the allocation, Close must not return.
+func vfC08CancelledCycle(e *vfEnv, r *vfResult, idx int) {
+	rng := e.rng(idx, "c08cancelled")
+	sw := newVfSwitch()
+	turi, _ := stun.ParseURI("turn:10.255.0.9:3478?transport=udp")
+	turi.Username, turi.Password = "user", "pass"
+	a, err := NewAgent(&AgentConfig{Net: vfSimpleNet(sw, "A", "10.0.0.1"), NetworkTypes: []NetworkType{NetworkTypeUDP4},
+		CandidateTypes: []CandidateType{CandidateTypeHost, CandidateTypeRelay}, Urls: []*stun.URI{turi}, MulticastDNSMode: MulticastDNSModeDisabled, LoggerFactory: vfQuietLogger()})
+	if err != nil {
+		r.inconclusive(1)
+
+		return
+	}
+	tally := &vfTurnTally{sw: sw, relayIP: "198.51.100.77", holdAlloc: make(chan struct{})}
+	a.turnClientFactory = tally.factory
+	_ = a.OnCandidate(func(Candidate) {})
+	if err := a.GatherCandidates(); err != nil {
+		_ = a.Close()
+		r.inconclusive(1)
+
+		return
+	}
+	for dl := time.Now().Add(3 * time.Second); tally.inAlloc.Load() == 0 && time.Now().Before(dl); time.Sleep(20 * time.Microsecond) {
+	}
+	if tally.inAlloc.Load() == 0 {
+		close(tally.holdAlloc)
+		_ = a.Close()
+		r.inconclusive(1)
+
+		return
+	}
+	restart := rng.IntN(4) != 0
+	if restart {
+		_ = a.Restart("", "") // cancels the cycle; it cannot finish while the allocation is held
+	}
+	kind := []string{"close", "graceful"}[rng.IntN(2)]
+	cdone := make(chan struct{})
+	go func() {
+		if kind == "graceful" {
+			_ = a.GracefulClose()
+		} else {
+			_ = a.Close()
+		}
+		close(cdone)
+	}()
+	returnedEarly := false
+	select {
+	case <-cdone:
+		returnedEarly = tally.inAlloc.Load() > 0 // Close is back although the cycle's gatherer is provably still inside Allocate
+	case <-time.After(30 * time.Millisecond):
+	}
+	close(tally.holdAlloc)
+	r.eval(1)
+	wit := map[string]any{"idx": idx, "kind": kind, "restart_before_close": restart}
+	if returnedEarly {
+		r.violation("close-returned-while-gather-cycle-running", fmt.Sprintf("history %d: %s returned while a gathering cycle (cancelled by Restart: %v) was still inside its TURN allocation", idx, kind, restart), wit)
+	}
+	if ok, stuck, dump := vfAwaitOrStuck(cdone, 5*time.Second); !ok && stuck {
+		wit["stacks"] = dump
+		r.violation("close-stuck:cancelled-cycle", fmt.Sprintf("history %d: %s did not return after the held allocation was released", idx, kind), wit)
+
+		return
+	}
+	r.distinct(fmt.Sprintf("c08cancelled/%s/restart=%v", kind, restart))
+}
+
+// vfC08BlackholeDial: an active ICE-TCP candidate whose connect is pending (the remote passive candidate swallows
+// SYNs: a loopback listener with a full accept queue) when the agent is closed.  The dial belongs to the agent: it must
+// be gone soon after Close has returned, not when the kernel gives up two minutes later.
+func vfC08BlackholeDial(e *vfEnv, r *vfResult, idx int) {
+	fd, err := syscall.Socket(syscall.AF_INET, syscall.SOCK_STREAM, 0)
+	if err != nil {
+		r.inconclusive(1)
+
+		return
+	}
+	defer syscall.Close(fd) //nolint:errcheck
+	if err := syscall.Bind(fd, &syscall.SockaddrInet4{Addr: [4]byte{127, 0, 0, 1}}); err != nil {
+		r.inconclusive(1)
+
+		return
+	}
+	if err := syscall.Listen(fd, 0); err != nil {
+		r.inconclusive(1)
+
+		return
+	}
+	sa, err := syscall.Getsockname(fd)
+	if err != nil {
+		r.inconclusive(1)
+
+		return
+	}
+	port := sa.(*syscall.SockaddrInet4).Port //nolint:forcetypeassert
+	addr := fmt.Sprintf("127.0.0.1:%d", port)
+	var fillers []net.Conn
+	defer func() {
+		for _, c := range fillers {
+			_ = c.Close()
+		}
+	}()
+	blackhole := false
+	for i := 0; i < 4; i++ { // fill the accept queue until a connect hangs
+		c, err := net.DialTimeout("tcp4", addr, 300*time.Millisecond)
+		if err != nil {
+			var ne net.Error
+			blackhole = errors.As(err, &ne) && ne.Timeout()
+
+			break
+		}
+		fillers = append(fillers, c)
+	}
+	if !blackhole {
+		r.count("c08_blackhole_not_available", 1) // this kernel does not behave that way: nothing to observe
+
+		return
+	}
+	a, err := NewAgent(&AgentConfig{CandidateTypes: []CandidateType{CandidateTypeHost}, NetworkTypes: []NetworkType{NetworkTypeUDP4, NetworkTypeTCP4}, IncludeLoopback: true,
+		InterfaceFilter: func(n string) bool { return n == "lo" }, MulticastDNSMode: MulticastDNSModeDisabled, LoggerFactory: vfQuietLogger()})
+	if err != nil {
+		r.inconclusive(1)
+
+		return
+	}
+	_ = a.OnCandidate(func(Candidate) {})
+	rc, err := NewCandidateHost(&CandidateHostConfig{Network: "tcp", Address: "127.0.0.1", Port: port, Component: 1, TCPType: TCPTypePassive})
+	if err != nil {
+		_ = a.Close()
+		r.inconclusive(1)
+
+		return
+	}
+	_ = a.AddRemoteCandidate(rc)
+	dialing := func() int {
+		n := 0
+		for _, g := range strings.Split(vfStacks(), "\n\n") {
+			if strings.Contains(g, "newActiveTCPConn.func") && strings.Contains(g, "Dial") {
+				n++
+			}
+		}
+
+		return n
+	}
+	for dl := time.Now().Add(3 * time.Second); dialing() == 0 && time.Now().Before(dl); time.Sleep(200 * time.Microsecond) {
+	}
+	if dialing() == 0 {
+		_ = a.Close()
+		r.inconclusive(1)
+
+		return
+	}
+	kind := []string{"close", "graceful"}[e.rng(idx, "blackhole").IntN(2)]
+	if kind == "graceful" {
+		_ = a.GracefulClose()
+	} else {
+		_ = a.Close()
+	}
+	r.eval(1)
+	left := 0
+	for dl := time.Now().Add(5 * time.Second); time.Now().Before(dl); time.Sleep(2 * time.Millisecond) {
+		if left = dialing(); left == 0 {
+			break
+		}
+	}
+	if left > 0 {
+		r.violation("active-tcp-dial-left-after-close", fmt.Sprintf("history %d: %d active ICE-TCP dial goroutine(s) are still running 5 s after %s returned (the peer's passive candidate does not answer)", idx, left, kind), map[string]any{"idx": idx, "kind": kind})
+	}
+	r.count("c08_blackhole_dials_checked", 1)
+	r.distinct("c08blackhole/" + kind)
+}
+
 func TestVerifC08(t *testing.T) {
 	vfRun(t, "C08", func(e *vfEnv, r *vfResult) {
 		positions := []string{"new", "gathering", "gathered", "dialing", "checking", "connected", "restarted", "regathering", "regathering-then-restart"}
@@ -845,6 +1019,12 @@ func TestVerifC08(t *testing.T) {
 		}
 		for i := 0; i < e.n(40, 1500); i++ {
 			vfC08LateCandidate(e, r, 5000000+i)
+		}
+		for i := 0; i < e.n(60, 2400); i++ {
+			vfC08CancelledCycle(e, r, 6000000+i)
+		}
+		for i := 0; i < e.n(4, 160); i++ {
+			vfC08BlackholeDial(e, r, 7000000+i)
 		}
 	})
 }
